@@ -32,6 +32,17 @@ checks = {
  "C18": dict(cat="exploration", tech="runtime monitoring: full state dump (trait closure + all SQL rows) before/after every non-mutating outcome", ref="DESIGN.md §7 C18",
    text="Complete dumps of all clients around every GetChildVersion, GetSnapshot, conflicting AddVersion and declined AddSnapshot on both backends and both entries; any difference is a violation."),
 }
+checks.update({
+ "C15": dict(cat="exploration", tech="runtime monitoring: request-grammar enumeration with status/state-dump oracle (in-process actix service, exact chunk control)", ref="DESIGN.md §7 C15",
+   text="Grammar product route x method x client-id form x path-id form x content-type form x body class against servers with non-trivial state on both backends: never 5xx/panic, state (full dump) changes only on a 200 POST to an add route, must-refuse classes get 4xx with unchanged state; 100 MiB limit: limit-1/limit accepted and read back, limit+1 (one chunk, many chunks, limit then one byte) refused.",
+   note="Trusted: the request classification (written from the statement; forms the statement leaves open are 'ambiguous' and only the universal rules apply), in-process delivery through actix's test request type (raw-socket framing is exercised by the socket engines)."),
+ "C16": dict(cat="exploration", tech="runtime monitoring: enumerated allow-list matrix with storage AccessLog wrapper (zero txn() calls on refusal) and list-less twin comparison", ref="DESIGN.md §7 C16",
+   text="Allow-list {absent, empty, one, many} x 4 endpoints x id class (listed, unlisted with pre-existing data, unknown, malformed, alternative spellings) x validity on both backends: unlisted => 403 (4xx when doubly bad) with zero storage accesses observed at the Storage trait and unchanged dumps; allowed requests and whole listed-client histories answered exactly as on a list-less twin.",
+   note="Trusted: AccessLog wrapper at the public Storage trait boundary; alternative spellings of a listed id may be refused or served as that client."),
+ "C20": dict(cat="exploration", tech="runtime monitoring: response tap asserting Cache-Control no-store on every response of the grammar run, protocol histories and forced 5xx", ref="DESIGN.md §7 C20",
+   text="A tap in the HTTP client layer inspects every response produced by the request grammar (all routes, methods, refusals, unknown routes), by protocol histories (200/404/409/410) and by a storage failing on purpose (500); each must carry Cache-Control with no-store; the run must have observed 200/400/404/409/410/500 and unknown routes.",
+   note="Scope: responses generated by the application service; replies actix's HTTP/1 codec emits before routing (syntactically invalid HTTP) never reach the application and are not judged."),
+})
 checks.update(json.load(open('/verif/tools/manifest_extra.json')) if __import__('os').path.exists('/verif/tools/manifest_extra.json') else {})
 
 m = {
